@@ -96,6 +96,12 @@ def m_strip(ip, s, chars=None):
         cs = chars.decode("latin-1") if isinstance(chars, bytes) else chars
     if not isinstance(s, Sym):
         return s.strip(chars)
+    from . import shape
+    ps = shape.pieces_of(s.t)
+    if ps is not None:
+        r = shape.strip_chars(ps, cs)
+        if r is not shape.UNKNOWN:
+            return mkstr(shape.concat(r), isb)      # decided on the structure of the shaped string (exact)
     p = core.cur()
     # strip is a function symbol (so that equal arguments give equal results by congruence); each distinct
     # application gets one instance of its defining decomposition  s = pre ++ strip(s) ++ suf
@@ -219,6 +225,14 @@ def m_replace(ip, s, old, new, count=-1):
         raise Unsupported("replace with symbolic count")
     if count == 1:
         return mkstr(z3.Replace(to_z3str(s), to_z3str(old), to_z3str(new)), _isb(s))
+    if isinstance(s, SStr) and isinstance(old, (str, bytes)) and isinstance(new, (str, bytes)) and len(old) == 1:
+        from . import shape
+        ps = shape.pieces_of(s.t)
+        if ps is not None:
+            dec = (lambda x: x.decode("latin-1")) if isinstance(old, bytes) else (lambda x: x)
+            r = shape.replace_all_char(ps, dec(old), dec(new))
+            if r is not shape.UNKNOWN:
+                return mkstr(shape.concat(r), _isb(s))      # decided on the structure (exact)
     # replace-all: neither solver decides goals over str.replace_all, so it is an uninterpreted function of its three
     # arguments (equal arguments give equal results) with two lemma instances that are theorems of str.replace:
     # no occurrence of `old` -> unchanged; `old` empty is not modelled
